@@ -144,3 +144,70 @@ pub fn fork_reduce_ex<A>(n: usize, init: impl Fn(usize) -> A, step: impl Fn(&mut
     unsafe { libc::munmap(counter as *const AtomicUsize as *mut libc::c_void, 4096) };
     out
 }
+
+/// Run `f` in a forked child and wait at most `secs` seconds of real time for the JSON value it produces.
+/// Err("timeout") if it has not finished by then (the child is killed), Err(other) if it died.
+pub fn run_with_timeout(secs: u64, f: impl FnOnce() -> serde_json::Value) -> Result<serde_json::Value, String> {
+    use std::io::{Read, Write};
+    use std::os::unix::io::FromRawFd;
+    let _ = std::io::stdout().flush();
+    let mut fds = [0i32; 2];
+    // SAFETY: pipe/fork/poll/kill/waitpid on our own child
+    unsafe {
+        if libc::pipe(fds.as_mut_ptr()) != 0 {
+            return Err("pipe".into());
+        }
+        let pid = libc::fork();
+        if pid < 0 {
+            return Err("fork".into());
+        }
+        if pid == 0 {
+            libc::prctl(libc::PR_SET_PDEATHSIG, libc::SIGKILL);
+            libc::close(fds[0]);
+            let v = match std::panic::catch_unwind(std::panic::AssertUnwindSafe(f)) {
+                Ok(v) => v,
+                Err(_) => serde_json::json!({"__panic": true}),
+            };
+            let mut w = std::fs::File::from_raw_fd(fds[1]);
+            let _ = w.write_all(serde_json::to_string(&v).unwrap().as_bytes());
+            let _ = w.flush();
+            drop(w);
+            libc::_exit(0);
+        }
+        libc::close(fds[1]);
+        let mut pfd = libc::pollfd { fd: fds[0], events: libc::POLLIN | libc::POLLHUP, revents: 0 };
+        let mut buf = Vec::new();
+        let t0 = super::vclock::raw_now_s();
+        let mut timed_out = false;
+        let mut r = std::fs::File::from_raw_fd(fds[0]);
+        loop {
+            let left = secs as f64 - (super::vclock::raw_now_s() - t0);
+            if left <= 0.0 {
+                timed_out = true;
+                break;
+            }
+            let n = libc::poll(&mut pfd, 1, (left * 1000.0) as i32 + 1);
+            if n > 0 {
+                let mut chunk = [0u8; 65536];
+                match r.read(&mut chunk) {
+                    Ok(0) => break,
+                    Ok(k) => buf.extend_from_slice(&chunk[..k]),
+                    Err(_) => break,
+                }
+            }
+        }
+        if timed_out {
+            libc::kill(pid, libc::SIGKILL);
+        }
+        let mut status = 0;
+        libc::waitpid(pid, &mut status, 0);
+        let _ = std::fs::remove_dir_all(format!("/dev/shm/cbv-{pid}"));
+        if timed_out {
+            return Err("timeout".into());
+        }
+        if !libc::WIFEXITED(status) || libc::WEXITSTATUS(status) != 0 {
+            return Err(format!("child ended abnormally (raw wait status {status})"));
+        }
+        serde_json::from_slice(&buf).map_err(|e| format!("unparsable child output: {e}"))
+    }
+}
